@@ -254,7 +254,8 @@ BUILTIN = ["EME2000", "MOD", "TOD", "TEME", "PEF", "ITRF", "TIRF", "CIRF", "GCRF
 
 def _grid_frames(tier, rng):
     """EOP mode {real IERS tables, zeros (missing with policy pass)} x dates {1 Jan and 1 Jul of 1975..2015 every 5 years, plus 8 (quick) / 40 seeded dates 1973-2017} x
-    frame A in the 10 built-in frames + a station + an orbit-attached QSW frame (all B, C enumerated inside)"""
+    frame A in the 10 built-in frames + a station + an orbit-attached QSW frame + two frames (inertial axes, TNW axes) attached to a plain state dated two hours earlier
+    (all B, C enumerated inside)"""
     from datetime import datetime
     dates = []
     for y in range(1975, 2016, 5):
@@ -265,7 +266,7 @@ def _grid_frames(tier, rng):
         dates = dates[::3]
     for eop in (0, 1):
         for (y, m, d) in dates:
-            for a in range(12):
+            for a in range(14):
                 yield {"eop": eop, "y": y, "m": m, "d": d, "a": a, "sec": (a * 7919 + y) % 86400}
 
 
@@ -286,7 +287,11 @@ def _(c):
     sta = create_station(f"S{tag}", (43.4, 1.5, 178.0))
     ref = StateVector([6.9e6 * 0.6, 6.9e6 * 0.5, 6.9e6 * 0.62, -4.4e3, 5.4e3, 1.1e3], date, "cartesian", "EME2000")
     lof = orbit2frame(f"Q{tag}", ref, orientation="QSW")
-    names = BUILTIN + [sta.name, lof.name]
+    # two more frames attached to a plain state (no propagator) dated two hours BEFORE the states converted below: a fixed point of EME2000, seen at another date
+    ref_old = StateVector([-6.9e6 * 0.2, 6.9e6 * 0.7, 6.9e6 * 0.68, -5.4e3, -3.4e3, 2.1e3], date - timedelta(hours=2), "cartesian", "EME2000")
+    fixed = orbit2frame(f"F{tag}", ref_old)
+    fixed_q = orbit2frame(f"G{tag}", ref_old, orientation="TNW")
+    names = BUILTIN + [sta.name, lof.name, fixed.name, fixed_q.name]
     A = names[c.integer("a")]
     x = np.array([7.0e6 * 0.3, -7.0e6 * 0.8, 7.0e6 * 0.52, 5.1e3, 3.3e3, -4.6e3])
     sv = StateVector(x, date, "cartesian", A)
@@ -302,7 +307,7 @@ def _(c):
             via = np.asarray(b.copy(frame=C), dtype=float)
             direct = np.asarray(sv.copy(frame=C), dtype=float)
             ok_comp = ok_comp and np.linalg.norm(via[:3] - direct[:3]) <= 1e-6 and np.linalg.norm(via[3:] - direct[3:]) <= 1e-9
-        if B != lof.name and A != lof.name:
+        if not {A, B} & {lof.name, fixed.name, fixed_q.name}:
             # a point coasting in frame A (x + v t), seen from B at t +- h: central difference of positions vs converted velocity
             p1 = np.asarray(StateVector(np.concatenate([x[:3] + x[3:] * h, x[3:]]), date + timedelta(seconds=h), "cartesian", A).copy(frame=B), dtype=float)
             p0 = np.asarray(StateVector(np.concatenate([x[:3] - x[3:] * h, x[3:]]), date - timedelta(seconds=h), "cartesian", A).copy(frame=B), dtype=float)
